@@ -44,6 +44,9 @@ class FakeSock:
         self.chunks = deque()     # bytes chunks available
         self.term = "open"        # open | fin | rst
         self.ok_calls = None      # None = never fails; n = further sendall calls that succeed
+        self.cap = None           # room left in the send buffer; only a NON-BLOCKING send can run out of it (a blocking
+                                  # send waits for the peer, which keeps reading: the documented design)
+        self.rst_seen = False     # the peer's reset has been delivered to a read or write on this socket
 
     def __hash__(self):
         return self.cid
@@ -59,6 +62,14 @@ class FakeSock:
 
     def close(self):
         self.closed = True
+
+    def shutdown(self, how):
+        # Linux: shutdown() on a socket whose peer has reset the connection (or whose write side already failed with
+        # EPIPE) is ENOTCONN; on a closed descriptor EBADF; otherwise it succeeds
+        if self.closed:
+            raise OSError(errno.EBADF, "Bad file descriptor")
+        if self.term == "rst" or (self.ok_calls is not None and self.ok_calls <= 0):
+            raise OSError(errno.ENOTCONN, "Transport endpoint is not connected")
 
     def _buflen(self, buf):
         try:
@@ -103,14 +114,23 @@ class FakeSock:
         k = self.recv_into(b, n, flags)
         return bytes(b[:k])
 
-    def sendall(self, data):
+    def sendall(self, data, flags=0):
         if self.closed:
             raise OSError(errno.EBADF, "Bad file descriptor")
         if self.ok_calls is not None:
             if self.ok_calls <= 0:
                 raise BrokenPipeError(errno.EPIPE, "Broken pipe")
             self.ok_calls -= 1
-        self.script.sends.append((self.cid, bytes(data)))
+        data = bytes(data)
+        if (flags & 0x40) and self.cap is not None:
+            # MSG_DONTWAIT: what fits is written, then EAGAIN - sendall gives no way to tell how much went out
+            n = min(len(data), self.cap)
+            self.cap -= n
+            if n < len(data):
+                if n:
+                    self.script.sends.append((self.cid, data[:n]))
+                raise BlockingIOError(errno.EAGAIN, "Resource temporarily unavailable")
+        self.script.sends.append((self.cid, data))
 
     def send(self, data):
         self.sendall(data)
@@ -197,15 +217,19 @@ def run_case(case):
 
     fsock = types.SimpleNamespace(
         socket=fake_socket_ctor, AF_INET=2, SOCK_STREAM=1, IPPROTO_TCP=6, SOMAXCONN=128, INADDR_ANY=0,
-        MSG_WAITALL=0x100, TCP_NODELAY=1, SOL_SOCKET=1, SO_REUSEADDR=2, getprotobyname=lambda n: 6)
+        MSG_WAITALL=0x100, MSG_DONTWAIT=0x40, SHUT_RD=0, SHUT_WR=1, SHUT_RDWR=2, TCP_NODELAY=1, SOL_SOCKET=1, SO_REUSEADDR=2, getprotobyname=lambda n: 6)
 
     def fake_select(r, w, x, timeout=None):
         r = list(r)
         w = list(w)
         if r:
             # top of the loop: next round
-            while script.events and script.events[0]["k"] == "fault":
+            while script.events and script.events[0]["k"] in ("fault", "cap"):
                 ev = script.events.popleft()
+                if ev["k"] == "cap":
+                    if ev["c"] in script.socks:
+                        script.socks[ev["c"]].cap = ev["n"]
+                    continue
                 # a connection that has started failing keeps failing: a new plan does not revive it
                 if ev["c"] in script.socks:
                     sk = script.socks[ev["c"]]
